@@ -191,18 +191,22 @@ class TriggerHandler:
 
     def __process_call_backs(self, ctx: 'TriggerContext', arg: any, frame: FrameType, event: str, file: str, line: int,
                              function_name: str):
-        # remove top context
-        context: CallbackContext = self._callbacks.value.pop()
-        # if it is for our location process it
-        if context.at_location(event, file, line, function_name, frame):
+        # complete, from the top, every pending context that ends at this event: all the contexts opened on a
+        # line of this function, and at most one opened by a call (the one of the innermost invocation).
+        # Two contexts can end at the same event, e.g. a method span and a span on the last line of that method.
+        stack = self._callbacks.value
+        while len(stack) > 0:
+            context: CallbackContext = stack[-1]
+            if not context.at_location(event, file, line, function_name, frame):
+                logging.debug("Not at callback location %s", context.name)
+                break
             logging.debug("At callback location %s", context.name)
+            stack.pop()
             context.process(ctx, event, frame, arg)
-        else:
-            logging.debug("Not at callback location %s", context.name)
-            # else put the context back on the queue
-            self._callbacks.value.append(context)
+            if context.event != 'line':
+                break
 
-        if len(self._callbacks.value) == 0:
+        if len(stack) == 0:
             logging.debug("Callbacks cleared.")
             self._callbacks.clear()
 
